@@ -583,6 +583,101 @@ async fn moving_hosts(rep: &mut Report, thorough: bool) {
     stub.abort();
 }
 
+/// Lookups that FAIL for a while (the name disappears from the zone: NXDOMAIN) between successful ones, with ageing and
+/// two different ports: a request is either refused (while the name does not resolve and no live entry exists) or
+/// dialled at the REQUESTED port of an address of the host — never at the port of an earlier request, and a failure
+/// is not remembered once the name resolves again.
+async fn failing_lookups(rep: &mut Report, thorough: bool) {
+    #[derive(Clone, Copy, Debug, PartialEq)]
+    enum F {
+        R(u16),
+        Age,
+        Down,
+        Up,
+    }
+    let host = "epsilon.test";
+    let addrs: Vec<[u8; 4]> = vec![[127, 0, 0, 8]];
+    let zone: Arc<Mutex<HashMap<String, Vec<[u8; 4]>>>> = Arc::new(Mutex::new(HashMap::new()));
+    let (dport, stub, _log) = dns_stub_shared(zone.clone(), 0).await;
+    let stub_addr = format!("127.0.0.1:{dport}");
+    let alphabet = [F::R(4242), F::R(4343), F::Age, F::Down, F::Up];
+    let depth = if thorough { 6 } else { 5 };
+    let mut hists: Vec<Vec<F>> = vec![vec![]];
+    for _ in 0..depth {
+        let mut next = vec![];
+        for h in &hists {
+            for a in alphabet {
+                let mut n = h.clone();
+                n.push(a);
+                next.push(n);
+            }
+        }
+        hists = next;
+    }
+    hists.retain(|h| h.contains(&F::Down) && h.iter().filter(|o| matches!(o, F::R(_))).count() >= 2 && matches!(h.last(), Some(F::R(_))));
+    let fstr = |o: &F| match o {
+        F::R(p) => format!("resolve(epsilon:{p})"),
+        F::Age => "age61s".to_string(),
+        F::Down => "name stops resolving".to_string(),
+        F::Up => "name resolves again".to_string(),
+    };
+    for h in &hists {
+        zone.lock().unwrap().insert(host.to_string(), addrs.clone());
+        if let Err(e) = set_custom_dns_servers(&[stub_addr.clone()]).await {
+            rep.machinery(format!("cannot configure resolver: {e}"));
+            return;
+        }
+        rep.states += 1;
+        rep.transitions += h.len() as u64;
+        rep.traces_validated += 1;
+        rep.case(Some(&format!("failing:{:?}", h)));
+        let mut up = true;
+        let mut live_entry = false;
+        for (step, op) in h.iter().enumerate() {
+            let hist = || h[..=step].iter().map(fstr).collect::<Vec<_>>().join(", ");
+            match op {
+                F::R(port) => match real_timeout(25_000, resolve_host_with_cache(host, *port)).await {
+                    Some(Ok(sa)) => {
+                        if sa.port() != *port || !addrs.iter().any(|a| IpAddr::from(*a) == sa.ip()) {
+                            rep.violation("C07:resolver-returns-other-port-or-address-after-failed-lookup", &format!("history [{}]: the request for {host}:{port} resolved to {sa}", hist()), json!({"engine": "BX", "family": "failing-lookups", "history": hist()}));
+                            break;
+                        }
+                        if !up && !live_entry {
+                            rep.violation("C07:resolver-answers-for-a-name-that-does-not-resolve", &format!("history [{}]: {host} does not resolve and no live cache entry exists, yet the request for port {port} was given {sa}", hist()), json!({"engine": "BX", "family": "failing-lookups", "history": hist()}));
+                            break;
+                        }
+                        live_entry = true;
+                    }
+                    Some(Err(e)) => {
+                        if up {
+                            rep.violation("C07:resolution-failed", &format!("history [{}]: {host} resolves (again), yet the request for port {port} failed: {e} — an earlier failure was remembered", hist()), json!({"engine": "BX", "family": "failing-lookups", "history": hist()}));
+                            break;
+                        }
+                    }
+                    None => {
+                        rep.violation("C07:resolution-failed", &format!("history [{}]: the lookup did not return within 25 s", hist()), json!({"engine": "BX", "family": "failing-lookups"}));
+                        break;
+                    }
+                },
+                F::Age => {
+                    verif_age_cache(Duration::from_secs(61)).await;
+                    live_entry = false;
+                }
+                F::Down => {
+                    zone.lock().unwrap().remove(host);
+                    up = false;
+                }
+                F::Up => {
+                    zone.lock().unwrap().insert(host.to_string(), addrs.clone());
+                    up = true;
+                }
+            }
+        }
+    }
+    rep.sections.insert("failing_lookup_histories".into(), json!({"depth": depth, "histories": hists.len()}));
+    stub.abort();
+}
+
 // ------------------------------------------------------------------ (c/d) dialling through the real handler
 
 async fn dial_cases(rep: &mut Report) {
@@ -907,6 +1002,7 @@ pub fn run(tier: Tier) -> i32 {
     rt.block_on(async {
         resolution_histories(&mut rep, thorough).await;
         moving_hosts(&mut rep, thorough).await;
+        failing_lookups(&mut rep, thorough).await;
         v6_names(&mut rep).await;
         dial_cases(&mut rep).await;
     });
